@@ -268,6 +268,7 @@ class Session:
         self.triples: List[str] = []
         self.parse_steps = 0
         self.recent: Dict[str, str] = {}
+        self.giveup_seen = False
 
     # ---- helpers
     def count(self, k: str, n: int = 1) -> None:
@@ -422,6 +423,11 @@ class Session:
         self.count("outcome:" + name + ":" + cls)
         if fired1:
             self.count("steps_with_solver_fault_fired")
+            # From here on the history oracles (O3c, O4, O5) are not asserted in this session: a solver that gave up is a
+            # different dependency outcome, and e.g. a perfectly correct memo that cached the degraded answer would make
+            # later equal calls differ from a pristine interpreter although the property holds (see DESIGN section 16).
+            # Mutation, aliasing and module-state oracles (O1, O2, O3a, O3b) and all C14 oracles stay on.
+            self.giveup_seen = True
         self.log.add("outcome", i, name, cls, env.digest(out1)[:12])
 
         # ---- O1 / O2: operands and module state untouched, returning or raising, faulted or not
@@ -479,7 +485,11 @@ class Session:
                 pass
             out2, res2, _f2 = self.one_call(name, live2, script, wfault)
             self.count("second_calls")
-            if out2[0] != out1[0] or (out1[0] == "ok" and out2 != out1) or (out1[0] == "exc" and out2[1]["cls"] != out1[1]["cls"]):
+            if _f2:
+                self.giveup_seen = True
+            if self.giveup_seen:
+                self.count("history_oracles_skipped_after_giveup")
+            elif out2[0] != out1[0] or (out1[0] == "ok" and out2 != out1) or (out1[0] == "exc" and out2[1]["cls"] != out1[1]["cls"]):
                 self.violate(i, name, "O3c", {"what": "repeating the call immediately gave a different outcome", "first": _short(out1), "second": _short(out2)}, "repeat")
             if "O1" in O:
                 self.check_pool_untouched(i, name, "by the repeated call")
@@ -524,7 +534,7 @@ class Session:
                     self.violate(i, name, "O3b", {"what": "mutating the second result changed the first"}, "target=first-result vandal")
 
         # ---- O4: the same call on canonically equal arguments in a pristine interpreter
-        if "O4" in O and not fired1 and wfault is None and out1[0] != "crash":
+        if "O4" in O and not self.giveup_seen and wfault is None and out1[0] != "crash":
             req = {"kind": "call", "op": name, "args": can, "files": files_before, "clock": self.plan.get("clock")}
             st, ans = self.pristine(req)
             if st == "ok":
@@ -539,7 +549,7 @@ class Session:
                 self.count("pristine_died")
 
         # ---- O5 bookkeeping
-        if name == "parse":
+        if name == "parse" and not self.giveup_seen:
             s = step["args"]["s"]["lit"]
             if s not in self.parses:
                 self.parses[s] = _outcome_key(out1)
@@ -582,7 +592,7 @@ class Session:
         if "O2" in O:
             self.check_modstate(n, "end", "by the end of the session")
             self.check_probe(n, "end")
-        if "O5" in O:
+        if "O5" in O and not self.giveup_seen:
             from pacti.terms.polyhedra import serializer  # noqa: WPS433
 
             for s in sorted(self.parses):
